@@ -137,9 +137,17 @@ class Exec:
         """python int for an Int term known to lie in [lo, hi] (forks)."""
         t = simp(t)
         if isinstance(t, int): return t
-        for v in range(lo, hi + 1):
-            if self.decide(t == v): return v
-        raise PathDead()
+        if hi - lo <= 3:
+            for v in range(lo, hi + 1):
+                if self.decide(t == v): return v
+            raise PathDead()
+        # binary search: O(log n) decisions per path
+        while lo < hi:
+            mid = (lo + hi) // 2
+            if self.decide(t <= mid): hi = mid
+            else: lo = mid + 1
+        self.assume(t == lo)
+        return lo
 
     def model_of(self):
         m = self.solver.model()
@@ -677,6 +685,9 @@ class Exec:
             cands = prog.method_info('From', simple_name(mi.group(2)), 'from')
             if len(cands) > 1:
                 q = [c for c in cands if simple_name(mi.group(1)) in (c[2] or '')]
+                if len(q) > 1:
+                    isref = mi.group(1).strip().startswith('&')
+                    q = [c for c in q if (re.search(r'From<\s*&', c[2] or '') is not None) == isref]
                 if len(q) == 1: cands = q
             if len(cands) == 1: return _mir_caller(cands[0][0])
         tm = _parse_callee(callee)
@@ -694,6 +705,11 @@ class Exec:
             infos = prog.method_info(simple_name(tr) if tr else None, tys, method)
             if len(infos) > 1:
                 q = [i for i in infos if _qual_match(tyfull, i[1])]
+                if len(q) == 1: infos = q
+            if len(infos) > 1 and tr:
+                # several impls of one trait that differ in the trait's generic arguments (Index<usize> / Index<&usize>)
+                norm = lambda x: re.sub(r'(std|core)::(\w+::)*', '', (x or '').replace(' ', ''))
+                q = [i for i in infos if norm(i[2]) == norm(tr)]
                 if len(q) == 1: infos = q
             if len(infos) > 1:
                 # same type name defined in several modules: prefer the caller's own module
